@@ -10,8 +10,9 @@ image only.  mount (update_accessed_date on or off), create_file(name) under a s
 write / read / seek / truncate calls each under its own clock value (`clock y m d h mi s ms`, so that the model's clock
 argument IS the library's time provider), then flush and/or drop, unmount.  The model runner (mode csess) keeps the model's
 image and the device image (the formatted image + the library's logged device writes) and compares the WHOLE images after
-create, after EVERY call, after the flush / drop (bit 0 of the status byte, the volume dirty flag, masked while mounted) and
-exactly after unmount; the final device dump (`pages`) is compared page by page with the model's image as well.  Outcomes,
+create, after EVERY call, after the flush / drop and after unmount - EXACTLY, the status byte included: the model runs the
+MOUNTED operations of Model/VolStatus.v (the dirty flag is written when the code writes it - C12_vol_create, C12_vol_file_step,
+C12_vol_remove_file, C12_vol_unmount_restores - and is no longer masked); the final device dump (`pages`) is compared page by page with the model's image as well.  Outcomes,
 positions and sizes are compared after every call.
 Directly on the implementation, independent of the model (the C04 clause itself): the library's own final dump is decoded by
 Spec/Abs.abs + Spec/Wf.wf_issues: exactly one root node, the file `name` whose content is the byte array the session observed
@@ -91,12 +92,17 @@ def gen_session(rng, conf, nops, geo):
         r = gen_round(rng, nops if i == 0 else max(3, nops // 2), geo, used, 1 + i)
         r["remove"] = rng.chance(3, 5)
         rounds.append(r)
-    return {"conf": conf, "acc": acc, "rounds": rounds, "name": rounds[0]["name"], "ops": rounds[0]["ops"], "end": rounds[0]["end"]}
+    # the status byte the volume is mounted with: clean, dirty, io-error, reserved bits set by someone else (D11)
+    b0 = rng.choice([0, 0, 0, 0, 0, 1, 2, 3, 4, 0x84, 0xFC, 0xFF])
+    return {"conf": conf, "acc": acc, "rounds": rounds, "b0": b0, "name": rounds[0]["name"], "ops": rounds[0]["ops"], "end": rounds[0]["end"]}
 
 
 def build_script(s):
     label, dev, fmt, fill = s["conf"]
-    lines = ["dev %d %d" % (dev, fill), "wlog 0", "format " + fmt, "pages", "wlog 1", "mount 1 %d lossy" % s["acc"]]
+    lines = ["dev %d %d" % (dev, fill), "wlog 0", "format " + fmt, "pages"]
+    if s["b0"]:
+        lines.append("poke 37 %02x" % s["b0"])
+    lines += ["wlog 1", "mount 1 %d lossy" % s["acc"]]
     m = {"p_format": 3, "rounds": []}
     for r in s["rounds"]:
         h = r["handle"]
@@ -176,6 +182,8 @@ def stream(rep, tier, rng, who, n=None):
     for si, (s, (lines, m), res) in enumerate(zip(sessions_, built, results)):
         conf = s["conf"]
         mtext.append("fmt %s %d %d" % (conf[2], conf[3], s["acc"])); plan.append((si, "fmt", None))
+        if s["b0"]:
+            mtext.append("poke 37 %02x" % s["b0"]); plan.append((si, "poke", None))
         for ri, (r, mr) in enumerate(zip(s["rounds"], m["rounds"])):
             ic = mr["i_create"]
             cr = res[ic]
@@ -213,7 +221,7 @@ def stream(rep, tier, rng, who, n=None):
             "whole_image_compares": 0, "offsets_compared": 0, "flush_wrote_entry": 0, "flush_clean": 0,
             "deferred_writeback_seen_before_flush": 0, "content_bytes_decoded": 0, "stamps_changed_dirty_only": 0,
             "removes": 0, "removes_with_clusters": 0, "clusters_given_back": 0, "removes_beside_other_files": 0,
-            "remove_refused": 0, "fill_delete_cycles": 0}
+            "remove_refused": 0, "fill_delete_cycles": 0, "mount_status_byte": {}}
     state = {}
 
     def lfn_hex(name):
@@ -253,6 +261,9 @@ def stream(rep, tier, rng, who, n=None):
             t = out.split(" ")
             if t[0] != "ok" or lib is None or cvol_corr.parse_digest(t[5:]) != lib:
                 viol("the formatted device differs from the model's formatted image", m["p_format"], True)
+            continue
+        if what == "poke":
+            dist["mount_status_byte"]["%02x" % s["b0"]] = dist["mount_status_byte"].get("%02x" % s["b0"], 0) + 1
             continue
         if what == "create":
             r = s["rounds"][arg]; mr = m["rounds"][arg]
@@ -447,7 +458,8 @@ def stream(rep, tier, rng, who, n=None):
     rep.cov["session_corr_rule"] = ("1-3 files per freshly formatted FAT12/16 volume (%d configurations, device fill bytes 0x00/0xD1/0xE5/0xFF, with and "
                                     "without label, 1-2 FAT copies); per file: create_file under a scripted clock; 0-%d write/read/seek/truncate calls "
                                     "each under its own clock value; flush / drop / both; then in 3 of 5 cases drop + remove(name) (fill / delete "
-                                    "cycles, removes beside other files); WHOLE device vs model image after create, every call, flush, remove, "
+                                    "cycles, removes beside other files); mounted with status byte 0 / 1 / 2 / 3 / 4 / 0x84 / 0xFC / 0xFF; WHOLE device (status byte "
+                                    "included, unmasked) vs model image after create, every call, flush, remove, "
                                     "unmount; Spec/Abs + Spec/Wf on the device after every remove and on the library's final dump vs the observed "
                                     "byte arrays; remount read-back" % (len(CONFS), nops))
     if sessions_:
